@@ -100,6 +100,7 @@ type Tree struct {
 	Ifaces   []*Iface
 	Locals   Locals
 	OtherPkg string // name of an existing sibling package usable as -pkg destination (directory SrcDir/<name>)
+	FixedRequests [][]string // multi-interface requests (interface names) every case list includes
 	ExtraDecls string // additional declarations appended to the source package's types.go
 	NameMismatch bool // some dependency's package name differs from what goimports assumes from its path
 }
@@ -520,6 +521,7 @@ func (b *builder) render() {
 	fmt.Fprintf(&ty, "type %s struct{ v int }\n\n", l.Secret)
 	fmt.Fprintf(&ty, "const %s = 4\n\n", l.Const)
 	fmt.Fprintf(&ty, "type %s interface{ %s(p %s) error }\n\n", l.Emb, l.EmbMethod, l.Struct)
+	ty.WriteString("// local types named like std packages' types\ntype Time struct{ T int }\n\ntype Context struct{ C int }\n\n")
 	fmt.Fprintf(&ty, "type %s[T any] interface{ Base(x T) T }\n\n", l.GenBase)
 	fmt.Fprintf(&ty, "type %s[K comparable, V any] interface {\n\tLoad(k K) (V, bool)\n\tStore(k K, v V) error\n}\n", l.GenStore)
 	t.Files[t.SrcDir+"/types.go"] = ty.String() + "\n" + t.ExtraDecls
